@@ -72,14 +72,8 @@ func destroyProtocol(r *core.Run, rule string, obligations []string) {
 					if !ok || !isWithDestruction(core.Callee(c)) {
 						return false
 					}
-					// the closure handed over destroys the children
-					return core.CallsDeep(in, func(cc ssa.CallInstruction) bool {
-						if o := core.Callee(cc); o != nil && isMaybeDestroy(o) {
-							return true
-						}
-						// one more closure level (iteration callback inside the destruction closure)
-						return core.CallsDeep(cc, func(c3 ssa.CallInstruction) bool { o := core.Callee(c3); return o != nil && isMaybeDestroy(o) })
-					})
+					// the closure handed over destroys the children (directly, through an iteration callback, or through a helper method)
+					return core.CallReaches(in, func(cc ssa.CallInstruction) bool { o := core.Callee(cc); return o != nil && isMaybeDestroy(o) }, 3)
 				}, "Destroy can return without destroying the nested values under the double-destruction guard: nested resources are lost")
 			case "isDestroyed":
 				must("v.isDestroyed = true", fieldStoreOf("isDestroyed", false), "Destroy can return without marking the value destroyed: it stays usable")
